@@ -124,6 +124,7 @@ type TypeDecl struct {
 	Immutable     bool
 	Constructors  []string // names; nil = no @constructor
 	CtorSpelling  string   // rendered argument text of the @constructor line
+	DocPrefix     string   // spelling of the comment opener of annotation lines: "" = "// ", else "//", "//  ", "//\t"
 	CtorSplit     int      // > 0: the first CtorSplit names on one @constructor line, the others on a second one
 	TestOnly      bool
 	PackageOnly   [][]string // one entry per @packageonly line; nil = none
@@ -131,6 +132,7 @@ type TypeDecl struct {
 	ImplRefs      []ImplRef  // structured @implements lines (qualifier resolved per file at render time)
 	ExtraDoc      []string   // other doc lines (noise), rendered first
 	Grouped       bool       // rendered as type ( ... ) group
+	FuncLocal     bool       // an alias declared inside the function body, right before the statement that uses it (never part of a file's declarations)
 	JoinPrev      bool       // rendered inside the group of the type declaration right before it (if that one is Grouped)
 	IfaceMethods  []string   // for KIface: method signatures
 	AliasOf       *TypeRef   // if non-nil this is an alias declaration: type Name = X
@@ -205,6 +207,7 @@ type FuncDecl struct {
 	RetExpr     string // expression returned when Results non-empty (rendered verbatim after refs)
 	RetSite     *Site  // optional site that is the return statement
 	RetVar      *Var   // if set: return <RetVar.Name>
+	DocPrefix   string // as TypeDecl.DocPrefix
 	Generic     bool   // func Name[K any](k0 K, params...): callers may instantiate explicitly
 	done        bool   // body complete (usable as a call target)
 	called      bool   // referenced from a site: must stay in a regular file
